@@ -275,7 +275,18 @@ class Image(Traversable):
                     else:
                         pairs = [alternate_sample, sample]
 
+                    # the stem may already be taken by a sibling (or by
+                    # another merged pair): pick a free counted name
+                    taken_names = set(sample_dict.keys())
+                    taken_names.update(s.export_name for s in result)
                     new_name = match.group(1)
+                    count = 2
+                    while new_name in taken_names:
+                        new_name = self._add_count_to_name(
+                            match.group(1), 
+                            count
+                        )
+                        count += 1
                     result_sample = combine_stereo(pairs[0], pairs[1], new_name)
                     marked[alternate_name] = True
                 
